@@ -274,7 +274,49 @@ def run(prog, rep, tier):
             if "BACKWARDS_TIME_JUMP_MEANS_NEW_YEAR" in s_ or "sub" in s_.lower() or "'call', 'deref'" in s_:
                 thr_cmp.append(g)
         guard_ok = bool(dt_cmp) and len(gts) >= 2
-    thr = facts.consts.get("s4lib::readers::syslogprocessor::BACKWARDS_TIME_JUMP_MEANS_NEW_YEAR_HOURS") or {}
+    # the threshold itself: "time never runs backwards by more than a day"; the code documents 25 hours
+    # (a day plus a daylight-saving hour).  Anything below a day flags ordinary same-day disorder as
+    # a new year, anything above 25h lets time run backwards by more than the documented day.
+    ib = prog.body("<s4lib::readers::syslogprocessor::BACKWARDS_TIME_JUMP_MEANS_NEW_YEAR as std::ops::Deref>::deref::__static_ref_initialize")
+    UNIT = {"try_seconds": 1, "seconds": 1, "try_minutes": 60, "minutes": 60, "try_hours": 3600, "hours": 3600, "try_days": 86400, "days": 86400,
+            "try_weeks": 604800, "weeks": 604800, "try_milliseconds": 0.001, "milliseconds": 0.001}
+
+    def ev(op, depth=0):
+        if op[0] == "k":
+            return op[2] if isinstance(op[2], int) and not isinstance(op[2], bool) else None
+        l = op_local(op)
+        ds = ib.defs.get(l, []) if l is not None else []
+        if len(ds) != 1 or ds[0][1] == "call" or depth > 10:
+            return None
+        rv = ds[0][2]
+        if rv[0] == "use":
+            return ev(rv[1], depth + 1)
+        if rv[0] == "bin":
+            a, c_ = ev(rv[2], depth + 1), ev(rv[3], depth + 1)
+            if a is None or c_ is None:
+                return None
+            opn = rv[1].replace("WithOverflow", "").replace("Unchecked", "")
+            return {"Mul": a * c_, "Add": a + c_, "Sub": a - c_}.get(opn)
+        if rv[0] == "cast":
+            return ev(rv[2], depth + 1)
+        if rv[0] == "field" or (rv[0] == "use"):
+            return None
+        return None
+    ctor = [c for c in ib.live_calls() if c.d.startswith("chrono::TimeDelta::") or c.d.startswith("chrono::Duration::")]
+    secs = None
+    if len(ctor) == 1 and ctor[0].d.split("::")[-1] in UNIT and len(ctor[0].args) == 1:
+        v = ev(ctor[0].args[0])
+        if v is not None:
+            secs = v * UNIT[ctor[0].d.split("::")[-1]]
+    if secs is None:
+        raise CheckerError("BACKWARDS_TIME_JUMP_MEANS_NEW_YEAR initializer not evaluable (%s)" % [c.d for c in ctor])
+    rep.examined(R114, "BACKWARDS_TIME_JUMP_MEANS_NEW_YEAR|value", sample={"constructor": ctor[0].d, "seconds": secs, "hours": secs / 3600.0, "accepted_range_hours": [24, 25]})
+    if not (24 * 3600 <= secs <= 25 * 3600):
+        rep.violation(R114, "BACKWARDS_TIME_JUMP_MEANS_NEW_YEAR|value", "the minimum forward jump that means 'the year changed' is %.1f hours; the property allows time to run backwards by at most a day "
+                      "(documented as 25h): with this value %s" % (secs / 3600.0,
+                      "two messages 340..365 days apart (e.g. 'Jan 10' followed by next year's 'Jan  3') stay in one year and the earlier ones are dated a year late" if secs > 25 * 3600 else "ordinary disorder of under a day inside one file steps the year back"))
+    if not thr_cmp:
+        rep.violation(R114, pb.path + "|step-guard|threshold", "process_missing_year: the year step is not guarded by a comparison with BACKWARDS_TIME_JUMP_MEANS_NEW_YEAR")
     rep.examined(R114, pb.path + "|step", sample={"loop_assignments_to_year": len(loop_defs), "is_previous_minus_one": dec_ok, "guarded_by_forward_jump": guard_ok})
     if len(loop_defs) != 1 or not dec_ok:
         rep.violation(R114, pb.path + "|step", "process_missing_year: inside the backward walk the assumed year is changed other than by 'previous year - 1' (%d assignments)" % len(loop_defs))
@@ -356,6 +398,45 @@ def run(prog, rep, tier):
             rep.violation(R115, pb.path + "|early-stop", "process_missing_year: the backward walk stops (line %s) when the message time is %s the --dt-after bound; messages exactly on the bound are inside the window and the tied ones before it never get their year" % (line, what))
     if not stops:
         rep.info("process_missing_year has no early stop on --dt-after (slower, not wrong)")
+
+    # ------------------------------------------------------------ R11.7
+    # The backward walk re-reads a message under the earlier year after a wrap.  The end of a
+    # message is found by parsing the following lines *with the same assumed year*; a line that
+    # does not parse is appended as a continuation.  Whether a line parses therefore depends on
+    # the assumed year ("Feb 29" under a non-leap year), while the message that begins at that
+    # line may already be stored under its own (later) year.  Necessary condition: a line is
+    # appended as a continuation only after the store of known message starts was consulted.
+    R117 = rep.rule("R11.7", "a message re-read under another year never absorbs a line at which a stored message begins")
+    fb = prog.body("s4lib::readers::syslinereader::SyslineReader::find_sysline_year")
+    pushes = [c for c in fb.live_calls() if c.d == "s4lib::data::sysline::Sysline::push"]
+    rpt = [c for c in pushes if c.bb in fb.reachable_after(c.bb)]
+    if not rpt:
+        raise CheckerError("find_sysline_year: no repeatable Sysline::push (continuation-line idiom not recognised)")
+    cks = []
+    for c in fb.live_calls():
+        if c.d.endswith("::contains_key") and c.args and c.target is not None:
+            o = fb.origins(c.args[0], through_calls=("::deref",))
+            if any(x[0] == "arg" and x[1] == 1 and ("syslines" in x[-1] or "syslines_by_range" in x[-1]) for x in o):
+                t = fb.term(c.target)
+                if t[0] == "switch" and op_local(t[1]) == c.dest[0]:
+                    arms = {int(v): tb for v, tb in t[2]}
+                    false_t = arms.get(0) if 0 in arms else None
+                    if false_t is not None:
+                        cks.append((c, false_t))
+    for c in rpt:
+        guarded = [k for k, ft in cks if fb.dominates(ft, c.bb) and k.bb in fb.reachable_after(c.bb)]
+        inst = "%s|continuation-push" % fb.path
+        rep.examined(R117, inst, sample={"push_line": c.line, "known_start_tests_in_same_loop": [k.line for k in guarded]})
+        if not guarded:
+            rep.violation(R117, inst, "find_sysline_year: a line that has no datetime under the assumed year is appended to the message (line %d) without asking whether a stored message begins there; "
+                          "after a year wrap, 'Dec 31' re-read under the earlier non-leap year absorbs a following 'Feb 29' message, which is then printed with the December datetime" % c.line)
+
+    # ------------------------------------------------------------ R11.6 (shared instant-preservation lint)
+    import instant
+    R116i = rep.rule("R11.6", "mtime conversion preserves the instant")
+    n_sites = instant.check(prog, rep, R116i, lambda p: ('readers::syslogprocessor' in p or 'data::datetime::systemtime' in p) and '_tests' not in p, "the year taken from the modification time is read in the wrong zone")
+    if n_sites < 2:
+        raise CheckerError("R11.6: only %d chrono conversion sites found in scope (expected at least 2)" % n_sites)
 
     return rep.finish(
         "Static necessary-condition check of year inference: it runs exactly for year-less patterns, before streaming, seeded by the reader's "
